@@ -12,12 +12,12 @@ import shutil
 import subprocess
 import time
 
-from harness import fw, gen_bits, cpp_build
+from harness import fw, gen_bits, cpp_build, accessor_x
 
 META = {
     "technique": "Coq proofs about a Gallina mirror of the C++ runtime's scalar read path (C++ integer semantics explicit) + differential correspondence through generated code",
-    "level_text": "Machine-checked theorems (Coq 8.16, no axioms), for every container size 1..8 bytes, byte order, bit offset, width 1..64 and all contents: the mirrored read path (MemoryAccessor load -> BitBlock -> OffsetBitBlock::ReadUInt, also through nested offset blocks -> UIntView / IntView::ConvertToSigned / BcdView::ConvertToBinary and IsBcd / FlagView / EnumView / FloatView bit pattern) returns the documented value of exactly the field's bits, without undefined behaviour or failed CHECK, in a value type wide enough; IsBcd's parallel-nibble trick is proved for every number of nibbles (all 2^64 values of uint64_t); the EMBOSS_NO_OPTIMIZATIONS configuration (portable shift-and-or loops, non-two's-complement ConvertToSigned branch) is proved to read the same values as the memcpy+bswap configuration. For signed enums narrower than their underlying type the faithful model refutes the property (finding F1, theorem enum_signed_read_refuted) and the strongest true statement (width = underlying width) is proved. The model is tied to /repo on every run: generated modules are compiled by the working tree's embossc and g++ (both runtime configurations), and every accessor's Ok/IsComplete/Read/UncheckedRead/sizeof/signedness/CHECK failures are compared with the model (extracted OCaml for all cases, Coq vm_compute for a sample) and with an independent arithmetic reference.",
-    "level_note": "Trusted: Coq kernel + vm_compute; extraction (ExtrOcamlBasic only) + OCaml for the bulk evaluation, cross-checked against vm_compute on a sample each run; g++ 12 as the semantics of C++ (integer promotion rules and GCC's implementation-defined choices are written into Bits/Model.v section 1; signed left shift is treated more strictly than C++14); harness/gen_bits.py (generator, SPEC reference) and harness/cpp_build.py. Modelled, not verified: the C++ sources. Float: only the bit pattern is modelled (memcpy identity; the driver prints the re-memcpy'd bits); [requires] validators and the generated struct code are C01's subject; the alignment-specialised MemoryAccessor templates (EMBOSS_ALIAS_SAFE_POINTER_CAST loads/stores) are represented by the same memcpy model (a full-width object load is that function by definition); that static alignment does not change the function computed is an assumption TESTED every run, not a theorem: a second driver per module observes accessors again through GenericTopView<ContiguousBuffer<unsigned char, A, k>> for A in {2,4,8} (thorough: also 1) at buffer addresses k mod A (MakeAlignedTopView<unsigned char, A>, which only offers k = 0, whenever k = 0), every 2/4/8-byte container once at an address that is a multiple of its size under alignment 8, and compares them with the same SPEC and model values.",
+    "level_text": "Machine-checked theorems (Coq 8.16, no axioms), for every container size 1..8 bytes, byte order, bit offset, width 1..64 and all contents: the mirrored read path (MemoryAccessor load -> BitBlock -> OffsetBitBlock::ReadUInt, also through nested offset blocks -> UIntView / IntView::ConvertToSigned / BcdView::ConvertToBinary and IsBcd / FlagView / EnumView / FloatView bit pattern) returns the documented value of exactly the field's bits, without undefined behaviour or failed CHECK, in a value type wide enough; IsBcd's parallel-nibble trick is proved for every number of nibbles (all 2^64 values of uint64_t); the EMBOSS_NO_OPTIMIZATIONS configuration (portable shift-and-or loops, non-two's-complement ConvertToSigned branch) is proved to read the same values as the memcpy+bswap configuration. For signed enums narrower than their underlying type the faithful model refutes the property (finding F1, theorem enum_signed_read_refuted) and the strongest true statement (width = underlying width) is proved. The model is tied to /repo on every run: generated modules are compiled by the working tree's embossc and g++ (both runtime configurations), and every accessor's Ok/IsComplete/Read/UncheckedRead/sizeof/signedness/CHECK failures are compared with the model (extracted OCaml for all cases, Coq vm_compute for a sample) and with an independent arithmetic reference. The MemoryAccessor layer under that read path (every alignment specialisation, every storage character type, either host endianness, builtin or portable byte swap) is proved to return the little-/big-endian value of the bytes at the pointer whenever the static alignment claim holds, the claim is proved to propagate through GetOffsetStorage, and the casts of the byte loops are shown necessary by refuting the loops without them (read_loop_without_uint8_cast_refuted, read_loop_without_widening_cast_refuted, false_static_claim_refuted).",
+    "level_note": "Trusted: Coq kernel + vm_compute; extraction (ExtrOcamlBasic only) + OCaml for the bulk evaluation, cross-checked against vm_compute on a sample each run; g++ 12 as the semantics of C++ (integer promotion rules and GCC's implementation-defined choices are written into Bits/Model.v section 1; signed left shift is treated more strictly than C++14); harness/gen_bits.py (generator, SPEC reference) and harness/cpp_build.py. Modelled, not verified: the C++ sources. Float: only the bit pattern is modelled (memcpy identity; the driver prints the re-memcpy'd bits); [requires] validators and the generated struct code are C01's subject; the MemoryAccessor / ContiguousBuffer layer is modelled separately in Bits/Accessor.v (template selection over (kAlignment, kOffset, kBits), CharT in {char (signed), unsigned char, std::byte, signed char (rejected)}, byte loops with their cast chains, memcpy and EMBOSS_ALIAS_SAFE_POINTER_CAST whole-object variants with the endian macros on a little- or big-endian host, builtin or portable ByteSwap, OffsetStorageType/GreatestCommonDivisor bookkeeping, the checked entry points) and PROVED to compute the container_load of Bits/Model.v for every specialisation, CharT, configuration and address satisfying the static claim (accessor_read_le_spec, accessor_read_be_spec, aligned_reads_agree, char_storage_irrelevant, selection_sound, alignment_bookkeeping_sound); not modelled there: kBits = 0, alignments that do not fit size_t, volatile/const qualification, the strict-aliasing side of the may_alias pointer cast (a whole-object access is its object representation's value by definition; a misaligned one is undefined), a big-endian host can not be executed here (proved only). That the claim about a field's start which the back end passes as <kSubAlignment, kSubOffset> bounds the run-time offset is C05's theorem (hypothesis sub_claim). Tie: a C++ micro-driver instantiates MemoryAccessor<CharT, A, K, kBits> directly (CharT in {char, unsigned char, std::byte}, A in {1,2,4,8}, all K < A, kBits 8..64, two addresses, edge and random contents, four build configurations) and every observation is compared with the arithmetic reference, a sample (600; thorough: 6000) with the Coq model by vm_compute; OffsetStorageType as g++ instantiates it is compared with the model; the <kSubAlignment, kSubOffset> arguments the working tree's back end emits for fields at constant and n*m+b starts are read from a generated header and checked (sub_claim at the observed offsets, storage type = offset_storage_type, resulting claim true at the observed address) for seven root alignments; the generated views' observations of whole-container UInt fields through plain, statically aligned (GenericTopView<ContiguousBuffer<unsigned char, A, k>> for A in {2,4,8} at buffer addresses k mod A) and char-storage views are compared with the model's composition (OffsetStorageType + checked entry point + selected specialisation); all other accessors are still observed through those views and compared with the SPEC and the Bits/Model.v values.",
 }
 
 N_REPLAY_KEEP = 5
@@ -124,7 +124,7 @@ def evaluate(ctx, mods, mode, tag, given=None, count=True, aligned=True):
                             ctx.violation(key, "%s %s width %d at bit %d of %d-byte %s container, buffer %s: %s" % (
                                 acc.kind, acc.enum or "", acc.w, acc.bit_offset, acc.c, acc.order, gen_bits.hexs(root), msg),
                                 _replay(m, acc, buffer=gen_bits.hexs(root), observed=o["line"], expected=exp, **vw), found_input=True)
-                        coq_cases.append((None, None, dict(m=m, acc=acc, root=root, obs=o, spec_bad=bool(bad))))
+                        coq_cases.append((None, None, dict(m=m, acc=acc, root=root, obs=o, spec_bad=bool(bad), var=var)))
                 if mode != "read":
                     for b, root in enumerate(cs["write_bufs"]):
                         ws, exps, objs, any_bad = [], [], [], False
@@ -162,7 +162,7 @@ def evaluate(ctx, mods, mode, tag, given=None, count=True, aligned=True):
                                                 observed=o["line"], expected=exp, **vw), found_input=True)
                                 objs.append((t, v, o))
                         if objs:
-                            coq_cases.append((None, None, dict(m=m, acc=acc, root=root, writes=objs, spec_bad=any_bad)))
+                            coq_cases.append((None, None, dict(m=m, acc=acc, root=root, writes=objs, spec_bad=any_bad, var=var)))
     ctx.extra["timing_s"][tag]["compare_with_spec"] = round(time.time() - t2, 1)
     return coq_cases, n_bad, failures
 
@@ -359,6 +359,11 @@ def run_bits(ctx, mode, prop):
                    "spec: %d C++ observations of %d accessors in %d generated modules agree with the arithmetic reference"
                    % (ctx.evaluations, ctx.extra["accessors"], len(mods)),
                    len(ctx.violations) == n_viol and not failures)
+    # the MemoryAccessor / ContiguousBuffer layer against Bits/Accessor.v (harness/accessor_x.py)
+    t_acc = time.time()
+    accessor_x.views(ctx, all_cases, mode)
+    accessor_x.micro(ctx, mode)
+    ctx.extra.setdefault("timing_s", {})["accessor_layer"] = round(time.time() - t_acc, 1)
     try:
         bad = model_compare(ctx, mode, all_cases, mode)
     except fw.CoqEvalError as ex:
@@ -395,10 +400,11 @@ def run(ctx):
                 "a case is one (accessor, buffer); non-trivial when the field's bytes are present")
     ctx.rule += ("; every accessor of a 2/4/8-byte container, and a third of the others, is observed a second time through views with "
                  "static alignment A in {2,4,8} placed at an address k mod A (same buffers)")
-    ctx.assumptions = ["aligned_reads_agree (observed, not proved): the alignment-specialised accessors compute the same function as the "
-                       "unaligned ones, which is what the model's single load/store per byte order stands for",
+    ctx.assumptions = ["the static (alignment, offset) claim of the root buffer holds (the caller's obligation: MakeAlignedView / "
+                       "ContiguousBuffer<_, A, K> over a pointer that is K mod A) and the back end's <kSubAlignment, kSubOffset> bound the "
+                       "field's run-time start (C05); under these aligned_reads_agree is now a theorem, no longer an assumption",
                        "fields carry no [requires] attribute (Parameters::ValueIsOk is constant true); the generated struct code that "
                        "produces the field's view is C01's subject", "Float: bit pattern only"]
     ctx.audit()
-    ctx.check_theorems("EmbossV.Bits.Properties_C02", "Bits/Properties_C02.v", expect_min=10)
+    ctx.check_theorems("EmbossV.Bits.Properties_C02", "Bits/Properties_C02.v", expect_min=28)
     run_bits(ctx, "read", "C02")
